@@ -53,6 +53,11 @@ pub struct Case {
     /// Announces of each are inside the four-interval window at the deciding run
     #[serde(default)]
     pub gap: usize,
+    /// this port (P2P) is disabled by a peer-delay fault (two responders) right before the
+    /// deciding run of the last phase: it takes no part in the election, the decision for it is
+    /// still taken (and carries the data set update when it is M1/M2)
+    #[serde(default)]
+    pub faulty_port: Option<usize>,
 }
 
 fn idb(n: u8) -> [u8; 8] {
@@ -153,6 +158,9 @@ pub fn run_once(rep: &mut Report, case: &Case, port_order: &[usize], arrival_see
     b.clock_class = case.class;
     b.slave_only = case.slave_only;
     b.master_only = case.master_only.clone();
+    if let Some(fp) = case.faulty_port {
+        b.p2p_ports = (0..case.n_ports).map(|p| p == fp).collect();
+    }
     b.tp = statime::config::TimePropertiesDS::new_ptp_time(Some(37), LeapIndicator::Leap61, true, true, statime::config::TimeSource::Gnss);
     let built = {
         // accuracy / variance / p2 need the raw config
@@ -235,6 +243,29 @@ pub fn run_once(rep: &mut Report, case: &Case, port_order: &[usize], arrival_see
                 }
             }
             let is_final = round >= case.rounds;
+            if let Some(fp) = case.faulty_port {
+                if is_final && pi + 1 == case.phases.len() && fp < case.n_ports && node.port_state(fp) != PortState::Faulty {
+                    let (oc, op) = node.port_identity_bytes(fp);
+                    let me = Pid { clock: oc, port: op };
+                    if let Ok(acts) = node.call(fp, Call::DelayRequestTimer) {
+                        for a in acts {
+                            if let Act::SendEvent { data, .. } = a {
+                                let Ok(m) = Msg::decode(&data) else { continue };
+                                if m.hdr.msg_type != T_PDELAY_REQ {
+                                    continue;
+                                }
+                                for r in [0x71u8, 0x72] {
+                                    let resp = Src::new(idb(r), 1).pdelay_resp(m.hdr.seq, false, Ts { secs: 10, nanos: 0 }, me, 0);
+                                    let _ = node.call(fp, Call::EventRx(resp.encode(), time_from_units(1000 * SEC)));
+                                }
+                            }
+                        }
+                    }
+                    if node.port_state(fp) == PortState::Faulty {
+                        rep.ev("deciding_run_with_a_faulty_port");
+                    }
+                }
+            }
             let prior: Vec<PState> = (0..case.n_ports).map(|i| to_pstate(node.port_state(i))).collect();
             if is_final && gap > 1 {
                 // sparse announcers drop out of the window between their Announces, and the runs in
@@ -479,6 +510,7 @@ fn gen_case(rng: &mut StdRng) -> Case {
         port_order,
         arrival_seed: rng.gen(),
         gap,
+        faulty_port: if rng.gen_bool(0.2) { Some(rng.gen_range(0..n_ports)) } else { None },
     }
 }
 
@@ -561,6 +593,7 @@ pub fn run(rep: &mut Report, tier: &str, seed: u64, shard: (u32, u32), replay: O
                                                         port_order: vec![0],
                                                         arrival_seed: idx,
                                                         gap: 1,
+                                                        faulty_port: None,
                                                     };
                                                     if run_case(rep, &case) {
                                                         rep.distinct_case(&format!("{case:?}"));
